@@ -650,4 +650,90 @@ theorem xrun_name_gone (x0 : X) (h0 : XInitial x0) (l : List XTid) :
 theorem loopGone_of_stage {pc : EPc} (h : 6 ≤ pc.stage) : pc.loopGone = true := by
   cases pc <;> (try rename_i c; cases c) <;> simp [EPc.stage] at h <;> rfl
 
+/-! ### they do complete: every step of a call makes progress once the exit has finished -/
+
+/-- steps a call still needs once its actor's exit sequence has finished -/
+def Caller.rank (kid : Kid) (c : Caller) : Nat :=
+  match c.pc with
+  | .send => 6
+  | .waiting => if c.form == .join then 1 else 1 + remaining kid.g c.w
+  | .done _ => 0
+
+theorem remaining_le (g : G) (i : Nat) : remaining g i ≤ 4 := by
+  unfold remaining
+  split
+  · rename_i pc _; cases pc <;> simp [WPc.rank]
+  · omega
+
+theorem sendStep_pc (kid : Kid) (c : Caller) :
+    ((sendStep kid c).2.pc = .waiting ∨ (sendStep kid c).2.pc = .done .sendErr) ∧
+      (sendStep kid c).2.form = c.form := by
+  unfold sendStep
+  split
+  · exact ⟨Or.inl rfl, rfl⟩
+  · exact ⟨Or.inl rfl, rfl⟩
+  · split
+    · split
+      · exact ⟨Or.inl rfl, rfl⟩
+      · exact ⟨Or.inr rfl, rfl⟩
+    · exact ⟨Or.inr rfl, rfl⟩
+  · exact ⟨Or.inl rfl, rfl⟩
+  · dsimp only
+    split
+    · exact ⟨Or.inl rfl, rfl⟩
+    · split
+      · exact ⟨Or.inl rfl, rfl⟩
+      · exact ⟨Or.inr rfl, rfl⟩
+
+theorem call_progress (kid : Kid) (c : Caller) (hi : Inv kid.g) (hf : kid.g.exiter.finished = true)
+    (hd : c.isDone = false)
+    (hslot : c.form ≠ .join → c.w < kid.g.waiters.length ∧ isAbandoned kid.g c.w = false) :
+    Caller.rank (callStep kid c).1 (callStep kid c).2 < Caller.rank kid c := by
+  unfold callStep
+  split
+  · -- the send step
+    rename_i hs
+    obtain ⟨hpc, hform⟩ := sendStep_pc kid c
+    have hr := remaining_le (sendStep kid c).1.g (sendStep kid c).2.w
+    simp only [Caller.rank, hs]
+    rcases hpc with e | e <;> rw [e] <;> dsimp only
+    · split <;> omega
+    · omega
+  · rename_i hs
+    by_cases hj : c.form = .join
+    · -- a join handle: the task has completed
+      simp only [waitStep, hj, hf, if_true, Caller.rank, hs]
+      simp
+    · obtain ⟨hlt, hna⟩ := hslot hj
+      have hjb : (c.form == Form.join) = false := by simpa using hj
+      have hrank : Caller.rank kid c = 1 + remaining kid.g c.w := by simp [Caller.rank, hs, hjb]
+      rw [hrank]
+      unfold waitStep
+      split
+      · rename_i e; exact absurd e hj
+      · dsimp only
+        by_cases h0 : remaining kid.g c.w = 0
+        · -- its waiter has already returned (somebody polled the slot): the call observes it
+          have hret := returned_of_remaining_zero kid.g c.w hlt h0 hna
+          have hw : ∃ w, kid.g.waiters[c.w]? = some w := ⟨_, List.getElem?_eq_getElem hlt⟩
+          obtain ⟨w, hw⟩ := hw
+          have hown := pcOf_own_step kid.g c.w w hw
+          unfold isReturned at hret
+          simp only [pcOf, hw, Option.map_some] at hret
+          obtain ⟨pc, wk⟩ := w
+          cases pc <;> simp at hret
+          rename_i b
+          have : waiterPc (step kid.g (.w c.w)) c.w = some (.returned b) := by
+            have := hown; simp only [pcOf, stepWaiter] at this; exact this
+          simp only [this, Caller.rank]
+          omega
+        · have hlt' := waiter_progress kid.g c.w hi.toInvCore hf (by omega)
+          split
+          · simp only [Caller.rank]; omega
+          · simp only [Caller.rank, hs, hjb]
+            have : ((false : Bool) = true) = False := by simp
+            simp only [Bool.false_eq_true, if_false]
+            omega
+  · rename_i r hs; simp [Caller.isDone, hs] at hd
+
 end ExitRace
